@@ -2,7 +2,8 @@
 
 Generator: small blocks built directly through the public API (level names are arbitrary values: text with spaces,
 commas, quotes, line breaks; integers), optional weights on an uncrossed factor (makes the library introduce a hidden
-factor), optional within-trial derived factor, CrossBlock or MultiCrossBlock.  Experiments: the ones synthesize_trials
+factor), optional within-trial derived factor, 0-2 lenient run-length constraints (a constraint on a weighted uncrossed factor makes the
+hidden factor part of the encoding), CrossBlock or MultiCrossBlock.  Experiments: the ones synthesize_trials
 returns (RandomGen / IterateSATGen) and arbitrary well-formed ones (every user-declared factor mapped to T values drawn
 from its level names by Hypothesis).
 Oracle: experiments_to_tuples[e][t] == tuple(exp[f][t] for f in user factors in design order); experiments_to_dicts
@@ -52,7 +53,12 @@ def cases(draw):
         k = draw(st.integers(1, min(2, nf)))
         crossings.append(sorted(draw(st.lists(st.integers(0, nf - 1), min_size=k, max_size=k, unique=True))))
     source = draw(st.sampled_from(["RandomGen", "IterateSATGen", "arbitrary", "arbitrary"]))
-    case = {"factors": factors, "derived": derived, "crossings": crossings, "source": source,
+    cons = []
+    for _ in range(draw(st.integers(0, 2))):
+        fi = draw(st.integers(0, nf - 1))
+        cons.append({"kind": draw(st.sampled_from(["atmost", "exclude_none", "exactly_row"])), "factor": fi,
+                     "level": draw(st.integers(0, len(factors[fi]["levels"]) - 1)), "k": draw(st.integers(1, 3))})
+    case = {"factors": factors, "derived": derived, "crossings": crossings, "source": source, "constraints": cons,
             "n": draw(st.integers(1, 3)), "cells": draw(st.integers(0, 2 ** 30)), "prefix": draw(st.sampled_from(["experiment", "out put", "x"]))}
     return case
 
@@ -73,10 +79,20 @@ def _build(case):
         design.append(sp.Factor(d["name"], [sp.DerivedLevel(d["names"][0], sp.WithinTrial(mk(0), [arg])),
                                             sp.DerivedLevel(d["names"][1], sp.WithinTrial(mk(1), [arg]))]))
     crossings = [[fs[i] for i in c] for c in case["crossings"]]
+    cons = []
+    for c in case.get("constraints", []):
+        f = fs[c["factor"]]
+        lv = f.levels[c["level"] % len(f.levels)]
+        if c["kind"] == "atmost":
+            cons.append(sp.AtMostKInARow(c["k"] + 1, (f, lv)))
+        elif c["kind"] == "exactly_row":
+            cons.append(sp.AtLeastKInARow(1, (f, lv)))
+        else:
+            cons.append(sp.AtMostKInARow(c["k"] + 3, f))
     if len(crossings) == 1:
-        blk = sp.CrossBlock(design, crossings[0], [])
+        blk = sp.CrossBlock(design, crossings[0], cons)
     else:
-        blk = sp.MultiCrossBlock(design, crossings, [])
+        blk = sp.MultiCrossBlock(design, crossings, cons)
     return blk, design
 
 
@@ -201,6 +217,8 @@ def _labels(case):
         labs.append("has-hidden-factor")
     if case["derived"]:
         labs.append("has-derived")
+    if case.get("constraints"):
+        labs.append("has-constraint")
     if any(isinstance(l[0], int) for f in case["factors"] for l in f["levels"]):
         labs.append("int-level-names")
     if any(isinstance(l[0], str) and any(ch in l[0] for ch in ',"\n') for f in case["factors"] for l in f["levels"]):
